@@ -304,3 +304,61 @@ def rule_layouts(run, fx, rule, groups, floors=True):
             else:
                 run.ok(rule, "%s format %d: %s" % (what, fmt, " | ".join(it.show() for it in items[:len(spec)])))
     return n
+
+
+# Fixed-size records read through ReadFrom (a tuple of primitives converted to a struct): type -> (group, [(bytes, keyword)])
+RECORDS = {
+    "tables::TableRecord": ("container", [(4, "tag"), (4, "checksum"), (4, "offset"), (4, "length")]),
+    "woff::TableDirectoryEntry": ("container", [(4, "tag"), (4, "offset"), (4, "complength"), (4, "origlength"), (4, "origchecksum")]),
+    "tables::cmap::EncodingRecord": ("cmap", [(2, None), (2, None), (4, "offset")]),
+    "tables::cmap::SequentialMapGroup": ("cmap", [(4, "startchar"), (4, "endchar"), (4, "startglyph")]),
+    "tables::cmap::SubHeader": ("cmap", [(2, "first"), (2, "count"), (2, "delta"), (2, "rangeoffset")]),
+    "layout::CoverageRangeRecord": ("layout", [(2, "start"), (2, "end"), (2, "coverageindex")]),
+    "layout::ClassRangeRecord": ("layout", [(2, "start"), (2, "end"), (2, "class")]),
+    "layout::FeatureVariationRecord": ("layout", [(4, "condition"), (4, "substitution")]),
+    "layout::FeatureTableSubstitutionRecord": ("layout", [(2, "index"), (4, "offset")]),
+    "layout::ConditionFormat1": ("layout", [(2, "axis"), (2, "min"), (2, "max")]),
+    "tables::kern::KernPair": ("kern", [(2, "left"), (2, "right"), (2, "value")]),
+    "tables::variable_fonts::fvar::VariationAxisRecord": ("variations", [(4, "tag"), (4, "min"), (4, "default"), (4, "max"), (2, "flags"), (2, "name")]),
+    "tables::variable_fonts::RegionAxisCoordinates": ("variations", [(2, "start"), (2, "peak"), (2, "end")]),
+    "tables::variable_fonts::avar::AxisValueMap": ("variations", [(2, "from"), (2, "to")]),
+    "tables::variable_fonts::mvar::ValueRecord": ("variations", [(4, "tag"), (2, "outer"), (2, "inner")]),
+    "tables::variable_fonts::stat::AxisRecord": ("variations", [(4, "tag"), (2, "name"), (2, "ordering")]),
+    "tables::NameRecord": ("sfnt", [(2, "platform"), (2, "encoding"), (2, "language"), (2, "nameid"), (2, "length"), (2, "offset")]),
+    "tables::LangTagRecord": ("sfnt", [(2, "length"), (2, "offset")]),
+    "tables::LongHorMetric": ("sfnt", [(2, "advance"), (2, "lsb")]),
+    "tables::glyf::BoundingBox": ("sfnt", [(2, "xmin"), (2, "ymin"), (2, "xmax"), (2, "ymax")]),
+}
+HOST_WIDTH = {"u8": 1, "i8": 1, "u16": 2, "i16": 2, "u32": 4, "i32": 4, "u64": 8, "i64": 8, "tables::F2Dot14": 2, "tables::Fixed": 4, "F2Dot14": 2, "Fixed": 4}
+
+
+def rule_records(run, fx, rule, groups, floors=True):
+    run.rule(rule, "fixed-size records (%s): the tuple a ReadFrom impl receives has the specification's item widths in order and each item lands in "
+                   "the struct field that carries its meaning (`(start, end, class)` destructured as `(end, start, class)` swaps two glyph ids of "
+                   "every range)" % ", ".join(groups))
+    n = 0
+    for ty, (group, spec) in sorted(RECORDS.items()):
+        if group not in groups:
+            continue
+        b = fx.body("<%s as binary::read::ReadFrom>::read_from" % ty)
+        if b is None:
+            if floors:
+                run.anchor_missing(rule, "<%s as ReadFrom>::read_from" % ty)
+            continue
+        n += 1
+        items, _ = layout.readfrom_items(fx, b, b.local_ty(1))
+        probs = []
+        if len(items) != len(spec):
+            probs.append("%d items, the specification has %d" % (len(items), len(spec)))
+        for k, ((w, kw), it) in enumerate(zip(spec, items)):
+            got = HOST_WIDTH.get(it.ty) or HOST_WIDTH.get((it.ty or "").split("::")[-1])
+            if got != w:
+                probs.append("item %d is %s (%s bytes), the specification has %d bytes" % (k, it.ty, got, w))
+            elif kw and it.field and not it.field.isdigit() and _norm(kw) not in _norm(it.field):
+                probs.append("item %d ends up in `%s`; by the specification it is the %s item" % (k, it.field, kw))
+        short = ty.split("::")[-1]
+        if probs:
+            run.fail(rule, "record:%s" % short, "%s: %s" % (ty, "; ".join(probs)), "%s:%s" % (b.file, b.line))
+        else:
+            run.ok(rule, "%s: %s" % (short, " | ".join(it.show() for it in items)))
+    return n
